@@ -122,6 +122,12 @@ def well_formed_cases(r: Run, keys):
     out += ["(H2O)1000000000", "C(H2O)1000000000N", "((C[13]H3)1000N)500000", "(C2H2)1000000000", "H2147483647O2147483647",
             "(H)2147483647(O)2147483647", "(HO)2147483647", "(C[13]C)2147483647", "((HO)2)1073741823", "(NaCl)2147483647H2147483647",
             "(C2H2O2N2S2)1000000000"]
+    # lengths, counts, isotope numbers and depths named by new literals of the changed code
+    from . import common as _c
+    for d in _c.dict_ints(3, 20000):
+        out += ["C" * d, "CH" * (d // 2) + "O", "C" * (d - 1) + "He", f"C{d}", f"(C){d}", f"(CH2){d}O"]
+        if d <= 3000:
+            out.append("(" * d + "C" + ")" * d)
     # deep nesting
     for d in (10, 100, 500, 2000):
         out.append("(" * d + "C" + ")" * d)
@@ -192,6 +198,9 @@ def malformed_cases(r: Run, wf):
     out += ["".join(rng.choice(pool) for _ in range(rng.randint(8, 64))) for _ in range(3000 if thorough else 400)]
     out += gap_isotopes(table_keys())
     out += wrapped_numbers(table_keys())
+    from . import common as _c
+    for d in _c.dict_ints(3, 10 ** 12):
+        out += [f"C[{d}]", f"C[{d + 13}]", f"C[{d}]2", f"H[{d + 2}]", f"Ac[{d}]", f"C{d}x", "C" * min(d, 20000) + "x", "(" * min(d, 3000) + "C"]
     out += ["C[14]2", "C[14]", "C[0]", "C[]", "C[]2", "Ac[0]", "C[65536]", "C[99999999999]", "C99999999999", "C2147483648",
             "(C)99999999999", "H)", "Xx", "H ", "H-2", "Hé", "H]", "C[13", "C[1[3]]", "()", "(())", "(", ")", "(C", "C)", "((C)",
             "C[13]x", "C[+13]", "C[-1]", "C(", "C2(", "C[13](", "e*", "e*1", "c", "h2o", "C²", "C[²]", "C٣", "(C)²",
